@@ -49,7 +49,7 @@ def cases(tier, seed):
                 if tier == 'thorough' or (k, gv) in ((2, 'day_d_cet_dst'), (3, 'month_d'), (5, 'quarter_min')):
                     out.append(('window_%d_%s@%s' % (k, shape, gv), dict(kind='window', shape=shape, kw=dict(kw, gridv=gv))))
     places = list(PLACES) if tier == 'thorough' else ['before', 'after']
-    for ex in EXTRAS:
+    for ex in EXTRAS + ['minload_plant']:
         for pl in places:
             if tier != 'thorough' and pl == 'after' and ex in ('transport', 'multicommodity', 'scaled_storage'):
                 continue
@@ -81,6 +81,10 @@ def cases(tier, seed):
         for w in (((2, 5),) if tier != 'thorough' and ex != 'storage_blocks' else ((2, 5), (1, 3), (3, 4)) if ex not in ('storage_blocks', 'minload_plant') else ((1, 5), (2, 5))):
             out.append(('horizon_is_window_%s_%d_%d' % (ex, w[0], w[1]), dict(kind='straddle', extra=ex, place='horizon_is_window', win=list(w))))
     out.append(('takeperiod_outside', dict(kind='extra', extra='takeperiod', place='after')))
+    # a portfolio that consists of nothing but an order book whose orders all lie outside the horizon: set-up, optimisation (solver stubbed,
+    # duals filed by the real code) and output work, value and dispatch are zero
+    for pl in ('before', 'after'):
+        out.append(('alone_orderbook_all_orders_%s' % pl, dict(kind='alone', extra='orderbook', place=pl)))
     # a coarse interval straddling the horizon counts with its covered part only (decided with the C13 machinery: option problem vs
     # fine problem + equalities, whose step lengths are the covered fine steps)
     out.append(('coarse_interval_straddles_start', dict(kind='coarse13', opt='coarse', kind13='contract', T=4, win=(-1, 5))))
@@ -269,11 +273,63 @@ def run_case(case_id, tier, seed, kind, **kw):
         res['prop'] = PROP
         return res
     rec = lpsem.Rec(PROP, case_id)
+    if kind == 'alone':
+        return run_alone(rec, seed, **kw)
     if kind == 'window':
         return run_window(rec, seed, **kw)
     if kind == 'take':
         return run_take(rec, seed, **kw)
     return run_pair(rec, seed, kind, **kw)
+
+
+def build_alone(D, extra, place, T=4):
+    eao = lift.import_eao()
+    tg = shapes.grid(T)
+    nA, nB = shapes.nodes('A', 'B')
+    ex = mk_extra(D, extra, T, tg, nA, nB, PLACES[place])
+    return eao.portfolio.Portfolio([ex]), tg, shapes.prices_for(D, ['p', 'q'], T)
+
+
+def run_alone(rec, seed, extra, place):
+    """nothing but inert elements: the whole chain set-up -> optimize (real code, solver stubbed) -> extract_output works and reports zeros"""
+    eao = lift.import_eao()
+    from . import c03
+
+    def build(D):
+        pf, tg, prices = build_alone(D, extra, place)
+        op = pf.setup_optim_problem(prices, tg)
+        c03.with_stub('optimal')
+        res = op.optimize()
+        out = eao.io.extract_output(pf, op, res)
+        return pf, tg, op, res, out
+    paths = lift.explore_build(build, level='A')
+    rec.paths = len(paths)
+    for pi, (path, D) in enumerate(paths):
+        P = 'p%d' % pi
+        if path.exc is not None:
+            if common.is_rejection(path.exc):
+                rec.rejected_paths += 1
+                continue
+            common.crash_candidate(rec, P + '/crash', path, D, info=dict(kind='alone'))
+            continue
+        pf, tg, op, res, out = path.result
+        L = lpsem.LP(op)
+        base = list(D.pre) + path.pc + sym.atom_constraints()
+        x = [zl(v) for v in res.x]
+        assume = base + L.feas(x)
+        if rec.vacuity(P, assume) is None:
+            continue
+        rec.twin(P + '/zero', assume, z3.BoolVal(False))
+        goals = []
+        for tab in ('dispatch', 'DCF'):
+            for col in out[tab].columns:
+                for t in range(tg.T):
+                    v = out[tab][col].values[t]
+                    if isinstance(v, Sym) or (v == v and v != 0):
+                        goals.append(('%s/%s/%d' % (tab, col, t), zl(v) == 0, dict(kind='alone_zero', tab=tab, col=col, t=t)))
+        goals.append(('value', L.val(x) == 0, dict(kind='alone_zero', tab='value')))
+        rec.prove_each(P + '/reported_zero', assume, goals, form='Q1', info=dict(kind='alone'))
+    return rec.result()
 
 
 def _win_steps(a, tg):
@@ -459,6 +515,13 @@ def observe(case, kwargs, env, rq):
         if rq.get('kind') == 'replay':
             o['clipped'] = obs.problem_obs(c.setup_optim_problem(prices, tg))
         return o
+    if kind == 'alone':
+        # the real chain with the real solver
+        pf, tg, prices = build_alone(D, kw['extra'], kw['place'])
+        op = pf.setup_optim_problem(prices, tg)
+        res = op.optimize()
+        out = eao.io.extract_output(pf, op, res)
+        return dict(value=None if isinstance(res, str) else float(res.value), out=obs.output_obs(out))
     w, wo, tg, prices, dropped = build_pair(D, kind, **kw)
     opw = w.setup_optim_problem(prices, tg)
     xw = common.concrete_x(env, len(opw.c))
@@ -495,6 +558,15 @@ def judge(case, kwargs, cand, ans):
     if 'error' in ans:
         return None, ans['error']
     o = ans['obs']
+    if info.get('kind') in ('alone', 'alone_zero'):
+        bad = []
+        if o.get('value') is None or abs(o['value']) > 1e-7:
+            bad.append('value %s' % o.get('value'))
+        for tab in ('dispatch', 'DCF'):
+            for col, vals in o['out'][tab].items():
+                if any(v is not None and abs(v) > 1e-7 for v in vals):
+                    bad.append('%s column %s not zero' % (tab, col))
+        return (True, 'portfolio of inert elements only: ' + '; '.join(bad)) if bad else (False, 'value and tables are zero on the unshimmed code')
     k = info.get('kind')
     if k == 'straddle':
         from .. import replay
